@@ -1376,7 +1376,12 @@ func genStore(r *common.Rand, kind string, origin string) {
 				}
 			}
 			e.do("gc")
-			if e.sawGC && r.Chance(1, 3) {
+			if e.sawGC && r.Chance(1, 2) {
+				// chains GC -> [reopen] -> Delete(tagged root) -> reopen: what GC left in
+				// index.json only matters once the store has been reloaded from it
+				if r.Bool() {
+					e.do("reopen:dir")
+				}
 				if tr := e.taggedRoots(); len(tr) > 0 {
 					e.do(fmt.Sprintf("delete:%d", common.Pick(r, tr)))
 					e.do("reopen:" + common.Pick(r, []string{"dir", "fs", "tar"}))
@@ -1492,7 +1497,91 @@ func caseFromSeed(part string, seed uint64) {
 		permCases(r, origin)
 	case "burst":
 		genBurst(r, origin)
+	case "chain":
+		genChain(r, origin)
 	}
+}
+
+// genChain: nested manifests under one tagged root, then GC, reopen, Delete of the root
+// (and of further parents) with reopens in between and at the end: the index.json written
+// by each step is the only thing the next reopen sees.
+func genChain(r *common.Rand, origin string) {
+	var enc []dag.Encoded
+	add := func(kind, mt string, b []byte, succ []int, subject int) int {
+		enc = append(enc, dag.Encoded{Kind: kind, MediaType: mt, Bytes: b, Succ: succ, Subject: subject, TwinOf: -1})
+		return len(enc) - 1
+	}
+	descOf := func(i int) ocispec.Descriptor {
+		return content.NewDescriptorFromBytes(enc[i].MediaType, enc[i].Bytes)
+	}
+	salt := r.U64()
+	cfg := add(dag.KConfig, ocispec.MediaTypeImageConfig, []byte(fmt.Sprintf(`{"verif":"%x"}`, salt)), nil, -1)
+	layer := add(dag.KBlob, ocispec.MediaTypeImageLayer, []byte(fmt.Sprintf("layer-%x", salt)), nil, -1)
+	var images []int
+	for i := 0; i < 1+r.Intn(3); i++ {
+		m := ocispec.Manifest{MediaType: ocispec.MediaTypeImageManifest, Config: descOf(cfg), Layers: []ocispec.Descriptor{descOf(layer)},
+			Annotations: map[string]string{"verif.id": fmt.Sprintf("%d-%x", i, salt)}}
+		m.SchemaVersion = 2
+		b, _ := json.Marshal(m)
+		images = append(images, add(dag.KImage, ocispec.MediaTypeImageManifest, b, []int{cfg, layer}, -1))
+	}
+	// a tower of indexes: level k lists the level below
+	level := images
+	var tower []int
+	for d := 0; d < 1+r.Intn(3); d++ {
+		ix := ocispec.Index{MediaType: ocispec.MediaTypeImageIndex, Manifests: []ocispec.Descriptor{},
+			Annotations: map[string]string{"verif.level": fmt.Sprintf("%d-%x", d, salt)}}
+		ix.SchemaVersion = 2
+		var succ []int
+		for _, m := range level {
+			ix.Manifests = append(ix.Manifests, descOf(m))
+			succ = append(succ, m)
+		}
+		b, _ := json.Marshal(ix)
+		id := add(dag.KIndex, ocispec.MediaTypeImageIndex, b, succ, -1)
+		tower = append(tower, id)
+		level = []int{id}
+	}
+	top := tower[len(tower)-1]
+	g := dag.Decode(enc)
+	e := &xstore{u: newUniverse(g), kind: "oci", autoGC: r.Chance(1, 5), id: run.NewID(), origin: origin}
+	if err := e.open(); err != nil {
+		panic(err)
+	}
+	defer e.close()
+	order := make([]int, len(enc))
+	for i := range order {
+		order[i] = i
+	}
+	if r.Bool() {
+		common.Shuffle(r, order)
+	}
+	for _, i := range order {
+		e.do(fmt.Sprintf("push:%d", i))
+	}
+	e.do(fmt.Sprintf("tag:%d:root", top))
+	reopen := func() { e.do("reopen:" + common.Pick(r, []string{"dir", "dir", "fs", "tar"})) }
+	e.do("gc")
+	if r.Chance(3, 4) {
+		e.do("reopen:dir")
+	}
+	// delete the parents from the top, sometimes reopening in between
+	for k := len(tower) - 1; k >= 0 && !e.failed; k-- {
+		e.do(fmt.Sprintf("delete:%d", tower[k]))
+		if r.Chance(2, 3) || k == 0 {
+			reopen()
+		}
+		if r.Chance(1, 4) {
+			e.do("gc")
+			if r.Bool() {
+				e.do("reopen:dir")
+			}
+		}
+	}
+	e.do("reopen:dir")
+	reopen()
+	run.Count("chain")
+	e.finish(origin)
 }
 
 // genBurst: persistence of index.json under concurrent pushes.  Many goroutines push
@@ -1693,6 +1782,9 @@ func main() {
 	}
 	for i := 0; i < run.Scale(150, 1500); i++ {
 		caseFromSeed("burst", run.Rand.U64())
+	}
+	for i := 0; i < run.Scale(40, 1500); i++ {
+		caseFromSeed("chain", run.Rand.U64())
 	}
 	kinds := []string{"oci", "oci", "oci", "oci", "memory", "file"}
 	for i := 0; i < nStore; i++ {
